@@ -273,7 +273,21 @@ func (s *Solver) CheckModel(pc []*Term, extra []*Term, syms []*Term, text string
 
 func (s *Solver) checkModel(pc []*Term, extra []*Term, syms []*Term, text string) (Result, map[string]uint64) {
 	t0 := time.Now()
-	defer func() { s.Stats.Time += time.Since(t0) }()
+	defer func() {
+		d := time.Since(t0)
+		s.Stats.Time += d
+		if d > 300*time.Millisecond && os.Getenv("GOSYM_SLOWQ") != "" {
+			sz := 0
+			for _, c := range extra {
+				sz += int(c.size)
+			}
+			psz := 0
+			for _, c := range pc {
+				psz += int(c.size)
+			}
+			fmt.Fprintf(os.Stderr, "SLOWQ %.2fs pc=%d pcsize=%d extra=%d nsent=%d\n", d.Seconds(), len(pc), psz, sz, s.nsent)
+		}
+	}()
 	if s.nsent > 300000 || len(s.stack) > 0 && len(pc) == 0 && s.nsent > 50000 {
 		s.Restart()
 	}
